@@ -723,9 +723,13 @@ func yamlUnprintable(s string) bool {
 // scalar, and a final all-space line is dropped entirely. Characters
 // which require escaping need double quotes instead. A leading space
 // or tab would need an explicit indentation indicator, which goccy
-// does not emit.
+// does not emit. The indentation is detected from the first non-empty
+// line, so that line must exist and must not start with a space or tab.
 func blockLiteralSafe(s string) bool {
 	if len(s) == 0 || s[0] == ' ' || s[0] == '\t' {
+		return false
+	}
+	if first := strings.TrimLeft(s, "\n"); first == "" || first[0] == ' ' || first[0] == '\t' {
 		return false
 	}
 	if strings.Contains(s, " \n") || strings.HasSuffix(s, " ") {
